@@ -135,6 +135,7 @@ type Server struct {
 	cursorSeq int64
 	// LogOnly: commands for which the model only records the call and answers +OK
 	LogOnly func(name string) bool
+	AuthUnknown bool // AUTH is answered like an unknown command (arguments echoed in the error text)
 	Role string // master | slave, for INFO replication
 	InfoReplication func() string
 	Conns []*ConnState
@@ -354,6 +355,11 @@ func minInt(a, b int) int {
 
 func (sv *Server) dispatch(cn *ConnState, args [][]byte) []byte {
 	name := strings.ToLower(string(args[0]))
+	if name == "auth" && sv.AuthUnknown && len(args) >= 2 {
+		// a server that does not implement this auth command answers the way Redis >= 5 answers any unknown command:
+		// with the arguments echoed back
+		return errReply(fmt.Sprintf("ERR unknown command `%s`, with args beginning with: `%s`, ", args[0], args[1]))
+	}
 	if name == "auth" {
 		if len(args) != 2 {
 			return errReply("ERR wrong number of arguments for 'auth' command")
